@@ -39,6 +39,10 @@ CHECKS = {
          "held on everything observed: 80 (quick) / 800 (thorough) projects of 1-6 files with 0-3 type mappings x CLI and build-script path x 3/12 unchanged re-runs under other hash seeds, and --force / force:true from absent, matching, mismatching, corrupt and wrong-version caches", "4 C14"),
  "C15": ("exploration", "runtime monitor (exit/abort + differential): real CLI and library entry point (catch_unwind) on generated exotic Rust, fuzzed attribute payloads, a real-world corpus and its mutations, and non-Rust text; failing batches bisected to one input; project vs project+unparsable-file comparison",
          "held on everything observed: 3 300 generated + 1 500 corpus + 1 450 mutated corpus inputs + 66 non-Rust + 150 isolation projects in quick; thorough: 20 000 generated, every .rs file of the repository, the offline registry and the toolchains (~13 000), 40 000 mutants, 1 500 isolation projects", "4 C15"),
+ "C16": ("exploration", "runtime monitor (filesystem): recursive snapshot of a whole sandbox before/after every run + strace classification of every mutating syscall by target path",
+         "held on everything observed: 300 (quick) / 4 000 (thorough) sandboxes x 2-3 runs; output directory in 5 placements pre-populated with foreign and near-miss files, symlinks, stale reserved files; CLI absolute/relative/config, init and build-script paths; runs that find no commands; mode switches", "4 C16"),
+ "C17": ("fault_enumeration", "runtime monitor with fault injection: strace -P <file> -e inject (openat EACCES, write ENOSPC, SIGKILL at open) and filesystem obstacles (EISDIR, ENOTDIR) on the real processes; recovery compared with the tool's own fresh generation",
+         "enumerated: 8 targets x 5 fault kinds x 3 phases (first run, after edit, edit-then-revert) x 2 modes on the CLI path plus a build-script slice in quick; both paths completely in thorough; evidence reports fault points requested vs actually hit and the exit codes seen", "4 C17"),
  "C18": ("exploration", "runtime monitor (differential + reference): each project generated by the real CLI with and without the mapping table; mapped positions compared with the reference denotation, identifier scan for leftovers, declaration-multiset diff of everything else",
          "held on everything observed: 10 single-entry tables (plain and generic names) + 6 (quick) / 40 (thorough) multi-entry tables x ~60 constructor positions x 5 sites x 2 modes, with near-miss-named unrelated declarations in every project", "4 C18"),
  "C20": ("exploration", "runtime monitor: real ordering routines driven over enumerated graphs, each result judged by a closure/SCC oracle; crash = replayed and bisected",
